@@ -42,7 +42,7 @@ from .reporter       import CliReporter
 from .configurator   import Configurator, load_config
 from .configuration_error import ConfigurationError
 from .output import UIError
-from .ui import UI
+from .ui import UI, escape_braces
 
 
 class ReBench(object):
@@ -269,9 +269,9 @@ Argument:
                                         cli_reporter, exp_name, args.data_file,
                                         args.build_log, exp_filter, args.machine)
         except ConfigurationError as exc:
-            raise UIError(exc.message + "\n", exc)
+            raise UIError(escape_braces(exc.message) + "\n", exc)
         except ValueError as exc:
-            raise UIError(exc.args[0] + "\n", exc)
+            raise UIError(escape_braces(str(exc.args[0])) + "\n", exc)
 
         if args.report_completion:
             return self._report_completion()
@@ -307,7 +307,7 @@ Argument:
                            'random':      RandomScheduler}.get(self._config.options.scheduler)
         if scheduler_class is None:
             raise UIError("Unknown scheduler: %s. Use one of: batch, round-robin, random.\n"
-                          % self._config.options.scheduler, None)
+                          % escape_braces(self._config.options.scheduler), None)
 
         executor = Executor(runs, self._config.do_builds,
                             self.ui,
